@@ -121,7 +121,18 @@ fn evaluate_do_block_expr(
         // Still check for keywords
         if matches!(
             ident.as_str(),
-            "return" | "if" | "then" | "else" | "do" | "true" | "false" | "null" | "output" | "inputs"
+            "return"
+                | "if"
+                | "then"
+                | "else"
+                | "do"
+                | "true"
+                | "false"
+                | "null"
+                | "output"
+                | "inputs"
+                | "inf"
+                | "infinity"
         ) {
             return Err(RuntimeError::with_span(
                 format!("{} is a keyword, and cannot be reassigned", ident),
@@ -387,6 +398,8 @@ pub fn evaluate_ast(
                 || ident == "inputs"
                 || ident == "and"
                 || ident == "or"
+                || ident == "inf"
+                || ident == "infinity"
             {
                 return Err(RuntimeError::with_span(
                     format!("{} is a keyword, and cannot be reassigned", ident),
